@@ -55,6 +55,10 @@ func skipCompare(c *mc.Ctx, prop string, input []byte, t int8, sk string, env En
 		bad("panic:"+o.Panic.Frame+":"+o.Panic.Class, "panic: %s at %s", o.Panic.Msg, o.Panic.Frame)
 		return
 	}
+	if o.StackMismatch {
+		bad("stack-held-input-differs", "%v", o.Err)
+		return
+	}
 	if o.AllocCap {
 		c.Count("alloc-cap-outcomes", 1)
 		if r.OK && r.MaxDepth <= 63 {
@@ -84,7 +88,7 @@ func skipCompare(c *mc.Ctx, prop string, input []byte, t int8, sk string, env En
 		}
 	}
 	// a decoder that has just rejected something went back to its pool: the next user must find it as good as new
-	if !o.OK && sk != skBinary && sk != skBufBytes && sk != skBufStream && sk != skTplCustom {
+	if !o.OK && sk != skBinary && sk != skBinStack && sk != skBufBytes && sk != skBufStream && sk != skTplCustom {
 		c2 := runSkipperOpt(sk, c08Canary, ref.STRUCT, env, false, false)
 		if c2.Panic != nil || c2.AllocCap || !c2.OK || c2.N != len(c08Canary)-1 || (c2.HasBytes && string(c2.Bytes) != string(c08Canary[:len(c08Canary)-1])) {
 			bad("state-leaks-after-rejection", "after this rejected input, a fresh decoder from the pool mishandled a well-formed struct: %s (want extent %d)", describeOut(c2), len(c08Canary)-1)
